@@ -6,6 +6,10 @@ mod exec;
 mod c35;
 mod c15;
 mod c06;
+mod simx;
+mod simgen;
+mod c08;
+mod simprops;
 
 use std::io::{BufRead, Write};
 use std::path::PathBuf;
@@ -33,11 +37,24 @@ fn main() {
         for l in stdin.lock().lines() { let l = l.unwrap(); writeln!(w, "{}", ex.line(&l)).unwrap(); }
         return;
     }
+    if sub == "osdump" {
+        // the OS image exactly as the simulator loads it (translator input for Lc3V/Gen/OsImage.lean)
+        for (a, w) in lc3_ensemble::sim::_os_obj_file().addr_iter() {
+            match w { Some(w) => println!("{:04x} {:04x}", a, w), None => println!("{:04x} _", a) }
+        }
+        return;
+    }
     let mut o = util::Out::new(&out);
     match sub.as_str() {
         "c35" => c35::gen(&mut o, &mut ex, seed, thorough),
         "c15" => c15::gen(&mut o, &mut ex, seed, thorough),
         "c06" => c06::gen(&mut o, &mut ex, seed, thorough),
+        "c08" => c08::gen(&mut o, &mut ex, seed, thorough),
+        "c09" => simprops::c09(&mut o, &mut ex, seed, thorough),
+        "c14" => simprops::c14(&mut o, &mut ex, seed, thorough),
+        "c16" => simprops::c16(&mut o, &mut ex, seed, thorough),
+        "c27" => simprops::c27(&mut o, &mut ex, seed, thorough),
+        "c28" => simprops::c28(&mut o, &mut ex, seed, thorough),
         _ => { eprintln!("unknown subcommand {sub}"); std::process::exit(2); }
     }
     o.finish();
